@@ -33,6 +33,37 @@ class ModInfo:
         for node in self.tree.body:
             self._top(node)
 
+    def _init_exprs(self, cls):
+        """instance attributes that __init__ sets once, at its top level, to a constant expression (literals, module constants such as
+        select.POLLERR, | & + -) and that no other method of the class assigns: read as self.NAME they are that expression
+        (a representation invariant read off the class; anything else stays unresolved)"""
+        def const_expr(e):
+            if isinstance(e, ast.Constant):
+                return isinstance(e.value, (int, float, str, bytes)) or e.value is None
+            if isinstance(e, ast.Attribute):
+                return isinstance(e.value, ast.Name) and e.value.id != 'self'
+            if isinstance(e, ast.BinOp):
+                return isinstance(e.op, (ast.BitOr, ast.BitAnd, ast.Add, ast.Sub)) and const_expr(e.left) and const_expr(e.right)
+            return False
+        if not hasattr(self, 'init_exprs'):
+            self.init_exprs = {}
+        out, count = {}, {}
+        for fn in cls.body:
+            if not isinstance(fn, (ast.FunctionDef, ast.AsyncFunctionDef)):
+                continue
+            for st in ast.walk(fn):
+                tgts = st.targets if isinstance(st, ast.Assign) else [st.target] if isinstance(st, (ast.AugAssign, ast.AnnAssign)) else []
+                for t in tgts:
+                    for tt in ast.walk(t):
+                        if isinstance(tt, ast.Attribute) and isinstance(tt.value, ast.Name) and tt.value.id == 'self':
+                            count[tt.attr] = count.get(tt.attr, 0) + 1
+            if fn.name == '__init__':
+                for st in fn.body:
+                    if (isinstance(st, ast.Assign) and len(st.targets) == 1 and isinstance(st.targets[0], ast.Attribute)
+                            and isinstance(st.targets[0].value, ast.Name) and st.targets[0].value.id == 'self' and const_expr(st.value)):
+                        out[st.targets[0].attr] = st.value
+        self.init_exprs[cls.name] = {k: v for k, v in out.items() if count.get(k) == 1}
+
     def _top(self, node):
         if isinstance(node, ast.Assign) and len(node.targets) == 1 and isinstance(node.targets[0], ast.Name):
             try:
@@ -43,6 +74,7 @@ class ModInfo:
             self.class_bases[node.name] = [ast.unparse(b) for b in node.bases]
             # literal class attributes (constants read as self.NAME)
             cc = self.class_consts.setdefault(node.name, {})
+            self._init_exprs(node)
             for st in node.body:
                 if isinstance(st, ast.Assign) and len(st.targets) == 1 and isinstance(st.targets[0], ast.Name):
                     try:
